@@ -7,15 +7,18 @@ Errs(e) == SelectSeq(e.errs, LAMBDA x : x # "Palette")
 Ids(s) == {s[j][1] : j \in 1..Len(s)}
 
 VARIABLES probes,   \* ids of ordinary records (default target) whose log call reported nothing
-          respec    \* a specification string was accepted: from then on the probes may be filtered out legitimately
-pvars == <<bvars, probes, respec>>
+          respec,   \* a specification string was accepted: from then on the probes may be filtered out legitimately
+          dirgone   \* the environment removed the log directory under the running logger: what is written into the
+                    \* unlinked file is gone with it, so probes are not demanded back until the next start
+pvars == <<bvars, probes, respec, dirgone>>
 
 Upd == LET e == E IN
        /\ respec' = IF e.ev = "Begin" THEN FALSE ELSE (respec \/ (e.ev = "ParseNew" /\ Ok(e)))
+       /\ dirgone' = IF e.ev \in {"Begin", "Start"} THEN FALSE ELSE (dirgone \/ e.ev = "RmDir")
        /\ probes' = IF e.ev = "Begin" THEN {}
-                 ELSE IF e.ev = "Log" /\ Ok(e) /\ e.id > 0 /\ "probe" \in DOMAIN e /\ e.probe /\ Len(Errs(e)) = 0 /\ ~respec
+                 ELSE IF e.ev = "Log" /\ Ok(e) /\ e.id > 0 /\ "probe" \in DOMAIN e /\ e.probe /\ Len(Errs(e)) = 0 /\ ~respec /\ ~dirgone
                       THEN probes \cup {e.id}
-                 ELSE IF e.ev \in {"ExtRemove", "ExtRename", "Reset", "Start"} THEN {} ELSE probes
+                 ELSE IF e.ev \in {"ExtRemove", "ExtRename", "Reset", "Start", "RmDir"} THEN {} ELSE probes
 
 Check ==
     LET e == E
@@ -31,7 +34,7 @@ Check ==
                 /\ Cnt(4, probes' # {})
            ELSE TRUE
 
-Init == BaseInit /\ probes = {} /\ respec = FALSE
+Init == BaseInit /\ probes = {} /\ respec = FALSE /\ dirgone = FALSE
 Next == BaseStep /\ Upd /\ Check /\ Finish
 Spec == Init /\ [][Next]_pvars
 =============================================================================
